@@ -91,9 +91,7 @@ def Diff.empty : Diff := ⟨[], [], [], [], [], [], [], false⟩
 def Diff.classHashes (d : Diff) : List CHash := d.declared0 ++ d.declared1.map (·.hash)
 
 def Diff.storageAt (d : Diff) (a : Addr) (k : Slot) : Option Val :=
-  match alook d.storage a with
-  | some slots => alook slots k
-  | none => none
+  (alook d.storage a).bind (fun slots => alook slots k)
 
 /-- every address that gets a state object during `Update` -/
 def Diff.touched (d : Diff) : List Addr :=
